@@ -5,3 +5,4 @@ import RtrProps.C20
 import RtrProps.C17
 import RtrProps.C10
 import RtrProps.C15
+import RtrProps.C19
